@@ -17,6 +17,7 @@ package main
 import (
 	"fmt"
 	"io"
+	"sort"
 	"strings"
 
 	"github.com/openconfig/goyang/pkg/indent"
@@ -47,8 +48,17 @@ func doTypes(w io.Writer, entries []*yang.Entry) {
 		types.AddEntry(e)
 	}
 
+	// types is an unordered map, so sort what is printed for each type to
+	// get a reproducible output.
+	var out []string
 	for t := range types {
-		printType(w, t, typesVerbose)
+		var b strings.Builder
+		printType(&b, t, typesVerbose)
+		out = append(out, b.String())
+	}
+	sort.Strings(out)
+	for _, s := range out {
+		io.WriteString(w, s)
 	}
 	if typesDebug {
 		for _, e := range entries {
@@ -129,7 +139,12 @@ func showall(w io.Writer, e *yang.Entry) {
 		fmt.Fprintf(w, "\n%s\n  ", e.Node.Statement().Location())
 		printType(w, e.Type.Root, false)
 	}
-	for _, d := range e.Dir {
-		showall(w, d)
+	var names []string
+	for k := range e.Dir {
+		names = append(names, k)
+	}
+	sort.Strings(names)
+	for _, k := range names {
+		showall(w, e.Dir[k])
 	}
 }
